@@ -77,8 +77,8 @@ impl Prop for Refinement {
 
     fn runs(&self, tier: Tier) -> u64 {
         match tier {
-            Tier::Quick => 60_000,
-            Tier::Thorough => 1_500_000,
+            Tier::Quick => 400_000,
+            Tier::Thorough => 8_000_000,
         }
     }
 
